@@ -661,7 +661,7 @@ class Scalar(Qube):
                 warnings.filterwarnings('error')
                 try:
                     exp_values = np.exp(no_oflow._values_)
-                except (ValueError, TypeError):
+                except RuntimeWarning:
                     raise ValueError('Scalar.exp() overflow encountered')
 
         obj = Scalar(exp_values, mask=no_oflow._mask_)
